@@ -11,10 +11,10 @@ class Ob:
     engine 'chx' : CrossHair on function `fn` (a name) of harness module `module`.
     engine 'gate': fn() -> (ok, info) validation of a model/theory/shim against the real implementation."""
     def __init__(self, id, fn, engine = 'symx', setup = None, budget_s = 120, fuel = 2000, max_paths = 200000, desc = '',
-                 module = None, qtimeout_ms = 5000, bounds = None, classify = None, twin = None):
+                 module = None, qtimeout_ms = 5000, bounds = None, classify = None, twin = None, pins = None):
         self.id = id; self.fn = fn; self.engine = engine; self.setup = setup; self.budget_s = budget_s; self.fuel = fuel
         self.max_paths = max_paths; self.desc = desc; self.module = module; self.qtimeout_ms = qtimeout_ms
-        self.bounds = bounds or {}; self.classify = classify; self.twin = twin
+        self.bounds = bounds or {}; self.classify = classify; self.twin = twin; self.pins = pins
 
 def load_prop(pid):
     return importlib.import_module('vf.props.' + pid.lower())
@@ -33,7 +33,7 @@ def _work(ob, conn, seed, known):
             def fn(c):
                 shims.reset(); return ob.fn(c)
             r = core.explore(fn, max_paths = ob.max_paths, budget_s = ob.budget_s, fuel = ob.fuel, qtimeout_ms = ob.qtimeout_ms,
-                             seed = seed, known = known)
+                             seed = seed, known = known, pins = ob.pins)
             out = dict(engine = 'symx', paths = r['paths'], sym_paths = r['sym_paths'], ok_paths = r['ok_paths'], infeasible = r['infeasible'],
                        queries = r['queries'], solver_s = round(r['solver_s'], 3), checks = r['checks'],
                        failures = [dict(label = l, model = m) for l, m in r['failures']],
